@@ -1,4 +1,5 @@
-"""C12 extractor: the two repair switches of the @service life-cycle model, read off the source.
+"""C12 extractor: the repair switches of the @service life-cycle model and the tables of the script-side call forms,
+read off the source.
 
 Gen/ServiceTbl.lean:
   SERVICE_OWNER_IS_EVALUATOR   ServiceDecorator.start registers under `self.dm.ast_ctx.name` (the evaluator: 'file.x.func';
@@ -8,6 +9,12 @@ Gen/ServiceTbl.lean:
   SERVICE_KEY_LOWERCASED       service_register and service_remove both build `key = f"{domain}.{service}".lower()`
   BUILTIN_TEST_FOLDS_CASE_LEGACY / _NEW   `if name.lower() in (SERVICE_RELOAD, SERVICE_JUPYTER_KERNEL_START)` in trigger_init /
                                `if self.args[1].lower() in (...)` in ServiceDecorator.validate (before the fix: without .lower())
+  LEGACY_KNOWN_TO_CONTEXT_AT_FIRST_REGISTRATION   trigger_init calls trig_ctx.trigger_register(self) inside the registration
+                               loop (C12-F11); GlobalContext.stop() stops what is in self.triggers / self.dms
+  CONTROL_TABLE_SERVICE_CALL / _DOMAIN_SERVICE / _ENTITY_METHOD   the (keyword, accepted types) rows of the three call forms
+                               (Function.service_call, Function.get, State.get) and the shape of the loop that applies them
+  ENTITY_METHOD_USES_CALL_HELPER   the entity-method form is finished by Function.hass_services_async_call (C12-F8)
+  RESPONSE_LOOKUP_ONLY_IF_SERVICE_EXISTS   hass_services_async_call asks supports_response only after has_service
 """
 import ast
 
@@ -34,10 +41,12 @@ def gen_service_tbl():
 
     ti = find_func(ev, "trigger_init", "EvalFunc")
     skip = None
+    srv_loop = None
     if ti is not None:
         loops = [n for n in ast.walk(ti) if isinstance(n, ast.For) and isinstance(n.target, ast.Name)
                  and n.target.id == "srv_name"]
         if len(loops) == 1:
+            srv_loop = loops[0]
             regs = [c for c in ast.walk(loops[0]) if isinstance(c, ast.Call)
                     and ast.unparse(c.func) == "Function.service_register"]
             adds = [c for c in ast.walk(loops[0]) if isinstance(c, ast.Call)
@@ -132,6 +141,100 @@ def gen_service_tbl():
             body.append(f"def BUILTIN_TEST_FOLDS_CASE_{label} : Bool := false")
         else:
             broken.append(f"@service built-in name test ({label.lower()}): unknown shape {tests}")
+    # C12-F11: is a legacy function entered in the context's trigger registry with its first registration (inside the
+    # `for srv_name` loop, after `self.trigger_service.add`) or only at the end of trigger_init?
+    if skip is not None:
+        early = [c for c in ast.walk(srv_loop) if isinstance(c, ast.Call)
+                 and ast.unparse(c.func) == "trig_ctx.trigger_register" and [ast.unparse(a) for a in c.args] == ["self"]]
+        late = [c for c in ast.walk(ti) if isinstance(c, ast.Call) and ast.unparse(c.func) == "trig_ctx.trigger_register"]
+        if len(early) == 1 and early[0].lineno > adds[0].lineno and len(late) >= 2:
+            body.append("def LEGACY_KNOWN_TO_CONTEXT_AT_FIRST_REGISTRATION : Bool := true")
+        elif not early and len(late) >= 1:
+            body.append("def LEGACY_KNOWN_TO_CONTEXT_AT_FIRST_REGISTRATION : Bool := false")
+        else:
+            broken.append("eval.EvalFunc.trigger_init: where trig_ctx.trigger_register(self) is called")
+    # and GlobalContext.stop() stops exactly what is in self.triggers / self.dms
+    gstop = find_func(gc, "stop", "GlobalContext")
+    stops = [] if gstop is None else [(ast.unparse(n.iter), sorted(ast.unparse(c.func) for c in ast.walk(n) if isinstance(c, ast.Call)))
+                                      for n in gstop.body if isinstance(n, ast.For)]
+    if stops != [("self.triggers", ["func.trigger_stop"]),
+                 ("self.dms", ["Function.hass.async_create_task", "dm.stop"])]:
+        broken.append(f"global_ctx.GlobalContext.stop: loops {stops}")
+
+    # the three script-side call forms: their control tables (keyword, accepted types), and how the call is finished
+    st = parse("state.py")
+    forms = {"SERVICE_CALL": find_func(fn, "service_call", "Function"),
+             "DOMAIN_SERVICE": find_func(fn, "get", "Function"),
+             "ENTITY_METHOD": find_func(st, "get", "State")}
+    finish = {}
+    for label, f in forms.items():
+        rows = None
+        loops_ = [] if f is None else [n for n in ast.walk(f) if isinstance(n, ast.For) and isinstance(n.iter, ast.List)
+                                        and ast.unparse(n.target) == "(keyword, typ, default)"]
+        if len(loops_) == 1:
+            rows = []
+            for e in loops_[0].iter.elts:
+                if isinstance(e, ast.Tuple) and len(e.elts) == 3 and isinstance(e.elts[0], ast.Constant) \
+                        and isinstance(e.elts[1], ast.List) and all(isinstance(t, ast.Name) for t in e.elts[1].elts):
+                    rows.append((e.elts[0].value, [t.id for t in e.elts[1].elts], ast.unparse(e.elts[2])))
+                else:
+                    rows = None
+                    break
+            # the loop body: `if keyword in kwargs and type(kwargs[keyword]) in typ: hass_args[keyword] = kwargs.pop(keyword)
+            #                 elif default: hass_args[keyword] = default`
+            b = loops_[0].body
+            ok = len(b) == 1 and isinstance(b[0], ast.If) \
+                and ast.unparse(b[0].test) == "keyword in kwargs and type(kwargs[keyword]) in typ" \
+                and [ast.unparse(x) for x in b[0].body] == ["hass_args[keyword] = kwargs.pop(keyword)"] \
+                and len(b[0].orelse) == 1 and isinstance(b[0].orelse[0], ast.If) \
+                and ast.unparse(b[0].orelse[0].test) == "default" \
+                and [ast.unparse(x) for x in b[0].orelse[0].body] == ["hass_args[keyword] = default"]
+            if not ok:
+                rows = None
+        tymap = {"Context": "context", "bool": "bool", "int": "int", "float": "float"}
+        if rows is None or any(t not in tymap for _k, ts, _d in rows for t in ts) or \
+                any((d != "None") != (k == "context") for k, _ts, d in rows):
+            broken.append(f"{label}: the (keyword, typ, default) control table / loop has an unknown shape")
+        else:
+            body.append(f"def CONTROL_TABLE_{label} : List (String × List String) := [" + ", ".join(
+                f"({lean_str(k)}, {lean_list([tymap[t] for t in ts])})" for k, ts, _d in rows) + "]")
+        rets = [] if f is None else [ast.unparse(n.value.value.func) for n in ast.walk(f) if isinstance(n, ast.Return)
+                                     and isinstance(n.value, ast.Await) and isinstance(n.value.value, ast.Call)]
+        finish[label] = rets
+    helper = "cls.hass_services_async_call"
+    if finish["SERVICE_CALL"] != [helper] or finish["DOMAIN_SERVICE"] != [helper]:
+        broken.append(f"function.Function.service_call / get: the call is not finished by {helper}: {finish}")
+    if finish["ENTITY_METHOD"] == ["Function.hass_services_async_call"]:
+        body.append("def ENTITY_METHOD_USES_CALL_HELPER : Bool := true")
+    elif finish["ENTITY_METHOD"] == ["cls.hass.services.async_call"]:
+        body.append("def ENTITY_METHOD_USES_CALL_HELPER : Bool := false")
+    else:
+        broken.append(f"state.State.get: how the entity-method call is finished: {finish['ENTITY_METHOD']}")
+    # Function.hass_services_async_call: `if rr given and true and no blocking: blocking = True  elif rr not given and
+    # [the service exists and] supports_response(...) == ONLY: rr = True; blocking defaults to True`
+    hc = find_func(fn, "hass_services_async_call", "Function")
+    shape = None
+    if hc is not None:
+        ifs = [n for n in hc.body if isinstance(n, ast.If)]
+        if len(ifs) == 1 and len(ifs[0].orelse) == 1 and isinstance(ifs[0].orelse[0], ast.If):
+            t1 = ast.unparse(ifs[0].test)
+            t2v = ifs[0].orelse[0].test
+            t2 = [ast.unparse(v) for v in t2v.values] if isinstance(t2v, ast.BoolOp) and isinstance(t2v.op, ast.And) else []
+            b1 = [ast.unparse(x) for x in ifs[0].body]
+            b2 = [ast.unparse(x) for x in ifs[0].orelse[0].body]
+            sup = "cls.hass.services.supports_response(domain, service) == SupportsResponse.ONLY"
+            if t1 == "'return_response' in hass_args and hass_args['return_response'] and ('blocking' not in hass_args)" \
+                    and b1 == ["hass_args['blocking'] = True"] \
+                    and b2 == ["hass_args['return_response'] = True", "if 'blocking' not in hass_args:\n    hass_args['blocking'] = True"] \
+                    and not ifs[0].orelse[0].orelse:
+                if t2 == ["'return_response' not in hass_args", sup]:
+                    shape = False
+                elif t2 == ["'return_response' not in hass_args", "cls.hass.services.has_service(domain, service)", sup]:
+                    shape = True
+    if shape is None:
+        broken.append("function.Function.hass_services_async_call: response handling has an unknown shape")
+    else:
+        body.append(f"def RESPONSE_LOOKUP_ONLY_IF_SERVICE_EXISTS : Bool := {'true' if shape else 'false'}")
     emit("ServiceTbl", "\n".join(body))
 
 
